@@ -10,6 +10,9 @@ import BrushVerif.Spec.Glob
   `full` = the same regex anchored to the whole subject, `spec` = POSIX/bash (`-` when the pattern
   text is outside the well-formed fragment); features: `B` has `!(…)`, `O`/`X` the tripwire,
   `C` named class, `K` brush's grammar reads the text differently from POSIX.
+* `P <ext> <nocase> <piece>… -- <s>…` (piece = `l:<text>` quoted / `p:<text>` unquoted) →
+  `<impl> <spec|-> <joined text>`: `Pattern::exactly_matches` on the piece list as modelled, bash's reading
+* `PG <ext> <nocase> <dotglob> <piece>… -- <name>…` → `<impl names|NONE|NOEXP> <spec names|NONE|?>`
 * `G <ext> <nocase> <dotglob> <pat> <name>…` → `<impl names> <spec names|->` (comma separated, escaped)
 -/
 namespace BrushVerif.Drv.C08
@@ -42,8 +45,42 @@ def report (ext nc : Bool) (pt : Str) (ss : List Str) : Str :=
     let nz (x : Str) : Str := if x.isEmpty then ['-'] else x
     nz impl ++ [' '] ++ nz full ++ [' '] ++ nz spec ++ [' '] ++ feats
 
+def parsePiece? (t : Str) : Option PatPiece :=
+  match t with
+  | 'l' :: ':' :: r => some (.lit (unesc r))
+  | 'p' :: ':' :: r => some (.pat (unesc r))
+  | _ => none
+
+/-- split at the `--` token -/
+def splitDashes : List Str → List Str × List Str
+  | [] => ([], [])
+  | t :: ts => if t = ['-', '-'] then ([], ts) else let (a, b) := splitDashes ts; (t :: a, b)
+
+def handlePieces (glob : Bool) (e n d : Str) (rest : List Str) : Str :=
+  let (pt, st) := splitDashes rest
+  match pt.mapM parsePiece? with
+  | none => "bad-piece".toList
+  | some ps =>
+    let ss := st.map unesc
+    let nz (x : Str) : Str := if x.isEmpty then ['-'] else x
+    if glob then
+      let nm (l : List Str) : Str := if l.isEmpty then "NONE".toList else joinWith [','] (l.map esc)
+      (match expandPieces (flag e) (flag n) (flag d) (mergeAdjacent ps) ss with
+       | none => "NOEXP".toList
+       | some l => nm l) ++ [' '] ++
+      (match specExpandPieces (flag e) (flag n) (flag d) ps ss with
+       | some l => nm l
+       | none => ['?'])
+    else
+      nz (ss.map fun s => bit (piecesMatch (flag e) (flag n) ps s)) ++ [' '] ++
+      (match specParse (flag e) (specPiecesText ps) with
+       | none => ['-']
+       | some q => nz (ss.map fun s => bit (matchB (flag n) q s))) ++ [' '] ++ esc (piecesText ps)
+
 def handle (toks : List Str) : Str :=
   match toks with
+  | ['P'] :: e :: n :: rest => handlePieces false e n [] rest
+  | ['P', 'G'] :: e :: n :: d :: rest => handlePieces true e n d rest
   | [['M', 'X'], e, n, p, a, k] =>
     report (flag e) (flag n) (unesc p) (allStrs (unesc a) ((parseNat? k).getD 0) [[]])
   | [['T'], e, p] => "R=".toList ++ esc (patternToRegexStr (flag e) (unesc p))
